@@ -1,0 +1,305 @@
+//go:build verif
+
+package cose
+
+// Machine-checked contracts for package signature/cose (checked by /verif/govc; comment-only file).
+// Properties C01, C02, C07, C08, C13, C15, C16, C20 (COSE format level).
+
+//@ import "crypto"
+//@ import "crypto/x509"
+//@ import "time"
+//@ import gocose "github.com/veraison/go-cose"
+//@ import cbor "github.com/fxamacker/cbor/v2"
+//@ import "github.com/notaryproject/notation-core-go/signature"
+//@ import "github.com/notaryproject/notation-core-go/signature/internal/base"
+//@ import "github.com/notaryproject/notation-core-go/internal/algorithm"
+//@ import "github.com/notaryproject/notation-core-go/internal/timestamp"
+//@ import nx509 "github.com/notaryproject/notation-core-go/x509"
+
+// ---- C02: COSE algorithm tables (proved on the initialiser, assumed elsewhere)
+//@ global-invariant [cose-to-alg] coseAlgSignatureAlgMap != nil && (forall a gocose.Algorithm :: has(coseAlgSignatureAlgMap, a) <==> IsCoseAlg(a)) && coseAlgSignatureAlgMap[gocose.AlgorithmPS256] == 1 && coseAlgSignatureAlgMap[gocose.AlgorithmPS384] == 2 && coseAlgSignatureAlgMap[gocose.AlgorithmPS512] == 3 && coseAlgSignatureAlgMap[gocose.AlgorithmES256] == 4 && coseAlgSignatureAlgMap[gocose.AlgorithmES384] == 5 && coseAlgSignatureAlgMap[gocose.AlgorithmES512] == 6
+//@ global-invariant [scheme-time-label] signingSchemeTimeLabelMap != nil && (forall s signature.SigningScheme :: has(signingSchemeTimeLabelMap, s) <==> (s == signature.SigningSchemeX509 || s == signature.SigningSchemeX509SigningAuthority)) && signingSchemeTimeLabelMap[signature.SigningSchemeX509] == "io.cncf.notary.signingTime" && signingSchemeTimeLabelMap[signature.SigningSchemeX509SigningAuthority] == "io.cncf.notary.authenticSigningTime"
+//@ global-invariant [modes] encMode != nil && decMode != nil
+
+// stmt C02
+//@ stmt spec func IsCoseAlg(a gocose.Algorithm) bool { a == gocose.AlgorithmPS256 || a == gocose.AlgorithmPS384 || a == gocose.AlgorithmPS512 || a == gocose.AlgorithmES256 || a == gocose.AlgorithmES384 || a == gocose.AlgorithmES512 }
+//@ stmt spec func CoseAlgOf(a signature.Algorithm) gocose.Algorithm {
+//@     if a == 1 then gocose.AlgorithmPS256 else if a == 2 then gocose.AlgorithmPS384 else if a == 3 then gocose.AlgorithmPS512 else
+//@     if a == 4 then gocose.AlgorithmES256 else if a == 5 then gocose.AlgorithmES384 else if a == 6 then gocose.AlgorithmES512 else 0 }
+
+//@ func getSignatureAlgorithmFromKeySpec(keySpec)
+//@   ensures [iff] err == nil <==> (1 <= algorithm.AlgOf(keySpec.Type, keySpec.Size) && algorithm.AlgOf(keySpec.Type, keySpec.Size) <= 6)
+//@   ensures [table] err == nil ==> result == CoseAlgOf(algorithm.AlgOf(keySpec.Type, keySpec.Size)) && IsCoseAlg(result)
+//@   ensures [zero] err != nil ==> result == 0
+//@   pure
+//@ func getSignatureAlgorithm(signingCert)
+//@   requires signingCert != nil && algorithm.KeyShape(signingCert.PublicKey)
+//@   ensures [iff] err == nil <==> algorithm.SupportedKey(signingCert.PublicKey)
+//@   ensures [table] err == nil ==> result == CoseAlgOf(algorithm.AlgOf(algorithm.ExtractKeySpec$(signingCert).result0.Type, algorithm.ExtractKeySpec$(signingCert).result0.Size)) && IsCoseAlg(result)
+//@   pure
+//@ func hashFromCOSEAlgorithm(alg)
+//@   ensures [iff] err == nil <==> IsCoseAlg(alg)
+//@   ensures [table] err == nil ==> result == algorithm.HashOf(coseAlgSignatureAlgMap[alg]) && result != 0
+//@   ensures [zero] err != nil ==> result == 0
+//@   pure
+
+//@ func contains(s, e)
+//@   ensures [iff] result <==> (exists k :: 0 <= k && k < len(s) && s[k] == e)
+//@   loop 0
+//@     invariant forall k :: 0 <= k && k < it ==> s[k] != e
+//@   pure
+
+// stmt C13 (COSE System label set)
+//@ stmt spec func IsSystemLabel(k any) bool {
+//@     k == box(gocose.HeaderLabelAlgorithm) || k == box(gocose.HeaderLabelCritical) || k == box(gocose.HeaderLabelContentType) ||
+//@     k == box("io.cncf.notary.expiry") || k == box("io.cncf.notary.signingScheme") || k == box("io.cncf.notary.signingTime") || k == box("io.cncf.notary.authenticSigningTime") }
+//@ func isSystemHeader(label)
+//@   ensures [iff] result <==> IsSystemLabel(label)
+//@   pure
+//@ func normalizedLabel(key)
+//@   ensures [ok=>hashable] result1 ==> hashable(typeof(key)) && hashable(typeof(result0)) && (typeof(result0) == type(string) || typeof(result0) == type(int64))
+//@   ensures [identity] (result1 && (typeof(key) == type(string) || typeof(key) == type(int64))) ==> result0 == key
+//@   pure
+
+// stmt C07/C13 (COSE crit rules): the scheme label, the authority time label under the authority scheme and the expiry
+// label when present are listed critical; every listed label is present (go-cose Critical()); the extended keys are
+// exactly the labels that are not system labels, each once
+//@ spec func CritList(p gocose.ProtectedHeader) []any { p.Critical().result0 }
+//@ stmt spec func CoseCritRules(p gocose.ProtectedHeader) bool {
+//@     p.Critical().err == nil && typeof(p[box("io.cncf.notary.signingScheme")]) == type(string) &&
+//@     contains$(CritList(p), box("io.cncf.notary.signingScheme")) &&
+//@     (unbox(p[box("io.cncf.notary.signingScheme")], type(string)) == "notary.x509.signingAuthority" ==> contains$(CritList(p), box("io.cncf.notary.authenticSigningTime"))) &&
+//@     (has(p, box("io.cncf.notary.expiry")) ==> contains$(CritList(p), box("io.cncf.notary.expiry"))) &&
+//@     (forall k :: 0 <= k && k < len(CritList(p)) ==> has(p, CritList(p)[k])) }
+//@ stmt spec func ExtKeysOf(keys []any, p gocose.ProtectedHeader) bool {
+//@     (forall i :: 0 <= i && i < len(keys) ==> has(p, keys[i]) && !IsSystemLabel(keys[i])) &&
+//@     (forall k any :: has(p, k) && !IsSystemLabel(k) ==> (exists i :: 0 <= i && i < len(keys) && keys[i] == k)) &&
+//@     (forall i, j :: 0 <= i && i < j && j < len(keys) ==> keys[i] != keys[j]) }
+
+//@ func validateCritHeaders(protected)
+//@   ensures [err] err != nil ==> len(result) == 0
+//@   ensures [ok=>crit-rules] err == nil ==> CoseCritRules(protected)
+//@   ensures [ok=>ext-keys] err == nil ==> ExtKeysOf(result, protected) && (forall i :: 0 <= i && i < len(result) ==> hashable(typeof(result[i])))
+//@   loop 0
+//@     invariant mustMarkedCrit != nil && fresh(mustMarkedCrit)
+//@     invariant forall s any :: has(mustMarkedCrit, s) <==> ((s == box("io.cncf.notary.signingScheme") || (s == box("io.cncf.notary.authenticSigningTime") && signingScheme == "notary.x509.signingAuthority") || (s == box("io.cncf.notary.expiry") && has(protected, box("io.cncf.notary.expiry")))) && (forall j :: 0 <= j && j < it ==> labels[j] != s))
+//@   loop 1
+//@     invariant true
+//@   loop 2
+//@     invariant len(systemHeaders) == 7 && systemHeaders[0] == box(gocose.HeaderLabelAlgorithm) && systemHeaders[1] == box(gocose.HeaderLabelCritical) && systemHeaders[2] == box(gocose.HeaderLabelContentType) && systemHeaders[3] == box("io.cncf.notary.expiry") && systemHeaders[4] == box("io.cncf.notary.signingScheme") && systemHeaders[5] == box("io.cncf.notary.signingTime") && systemHeaders[6] == box("io.cncf.notary.authenticSigningTime")
+//@     invariant forall i :: 0 <= i && i < len(extendedAttributeKeys) ==> visited[extendedAttributeKeys[i]] && has(protected, extendedAttributeKeys[i]) && !IsSystemLabel(extendedAttributeKeys[i]) && hashable(typeof(extendedAttributeKeys[i]))
+//@     invariant forall k any :: visited[k] && has(protected, k) && !IsSystemLabel(k) ==> (exists i :: 0 <= i && i < len(extendedAttributeKeys) && extendedAttributeKeys[i] == k)
+//@     invariant forall i, j :: 0 <= i && i < j && j < len(extendedAttributeKeys) ==> extendedAttributeKeys[i] != extendedAttributeKeys[j]
+
+// stmt C13 (COSE): attributes = the non-system labels, value unchanged, critical iff listed
+//@ stmt spec func CoseExtAttrsOf(out []signature.Attribute, keys []any, p gocose.ProtectedHeader) bool {
+//@     len(out) == len(keys) && (forall i :: 0 <= i && i < len(keys) ==> out[i].Key == keys[i] && out[i].Value == p[keys[i]] &&
+//@          (out[i].Critical <==> contains$(unbox(p[box(gocose.HeaderLabelCritical)], type([]any)), keys[i]))) }
+//@ func generateExtendedAttributes(extendedAttributeKeys, protected)
+//@   requires forall i :: 0 <= i && i < len(extendedAttributeKeys) ==> hashable(typeof(extendedAttributeKeys[i]))
+//@   ensures [err] err != nil ==> len(result) == 0
+//@   ensures [ok] err == nil ==> typeof(protected[box(gocose.HeaderLabelCritical)]) == type([]any) && CoseExtAttrsOf(result, extendedAttributeKeys, protected)
+//@   loop 0
+//@     invariant len(extendedAttr) == it && (it > 0 ==> fresh(extendedAttr))
+//@     invariant forall i :: 0 <= i && i < it ==> extendedAttr[i].Key == extendedAttributeKeys[i] && extendedAttr[i].Value == protected[extendedAttributeKeys[i]] && (extendedAttr[i].Critical <==> contains$(criticalHeaders, extendedAttributeKeys[i]))
+
+// ================= read path
+
+//@ func decodeTime(timeRaw)
+//@   ensures [iff] err == nil <==> CBORTimeOK(timeRaw)
+//@   ensures [value] err == nil ==> result == CBORTime(timeRaw)
+//@   ensures [zero] err != nil ==> result.IsZero()
+
+// stmt C07: "COSE times encoded as tag-1 epoch values": a raw item must decode under the tag-required mode, an already
+// decoded time.Time is accepted only if the raw item of that label carries tag number 1
+//@ stmt spec func CoseTimeOf(t time.Time, headerMap map[any]cbor.RawMessage, label string, p gocose.ProtectedHeader) bool {
+//@     (typeof(p[box(label)]) == type(cbor.RawMessage) && CBORTimeOK(unbox(p[box(label)], type(cbor.RawMessage))) && t == CBORTime(unbox(p[box(label)], type(cbor.RawMessage)))) ||
+//@     (typeof(p[box(label)]) == type(time.Time) && has(headerMap, box(label)) && CBORTagged(headerMap[box(label)]) && CBORTagNumber(headerMap[box(label)]) == 1 && t == unbox(p[box(label)], type(time.Time))) }
+//@ func parseTime(headerMap, label, protected)
+//@   ensures [ok] err == nil ==> CoseTimeOf(result, headerMap, label, protected)
+//@   ensures [zero] err != nil ==> result.IsZero()
+
+//@ func generateRawProtectedCBORMap(rawProtected)
+//@   ensures [empty] len(rawProtected) == 0 ==> result == nil && err == nil
+
+// stmt C07/C13 (COSE): what lands in the signer info from the protected header
+//@ stmt spec func CoseSignedAttrsOf(info *signature.SignerInfo, p gocose.ProtectedHeader) bool {
+//@     CoseCritRules(p) && p.Algorithm().err == nil && IsCoseAlg(p.Algorithm().result0) && info.SignatureAlgorithm == coseAlgSignatureAlgMap[p.Algorithm().result0] && 1 <= info.SignatureAlgorithm && info.SignatureAlgorithm <= 6 && CoseAlgOf(info.SignatureAlgorithm) == p.Algorithm().result0 &&
+//@     info.SignedAttributes.SigningScheme == unbox(p[box("io.cncf.notary.signingScheme")], type(string)) &&
+//@     (info.SignedAttributes.SigningScheme == signature.SigningSchemeX509 || info.SignedAttributes.SigningScheme == signature.SigningSchemeX509SigningAuthority) &&
+//@     (exists hm map[any]cbor.RawMessage :: CoseTimeOf(info.SignedAttributes.SigningTime, hm, signingSchemeTimeLabelMap[info.SignedAttributes.SigningScheme], p) &&
+//@          (has(p, box("io.cncf.notary.expiry")) ==> CoseTimeOf(info.SignedAttributes.Expiry, hm, "io.cncf.notary.expiry", p))) &&
+//@     (exists keys []any :: ExtKeysOf(keys, p) && CoseExtAttrsOf(info.SignedAttributes.ExtendedAttributes, keys, p)) }
+//@ func parseProtectedHeaders(rawProtected, protected, signerInfo)
+//@   requires signerInfo != nil
+//@   modifies signerInfo.SignatureAlgorithm, signerInfo.SignedAttributes
+//@   ensures [ok] result == nil ==> CoseSignedAttrsOf(signerInfo, protected)
+//@   ensures [frame] signerInfo.Signature == old(signerInfo.Signature) && signerInfo.CertificateChain == old(signerInfo.CertificateChain) && signerInfo.UnsignedAttributes == old(signerInfo.UnsignedAttributes)
+
+//@ func (*envelope).payload(e)
+//@   requires e != nil && e.base != nil
+//@   ensures [ok] err == nil ==> result != nil && fresh(result) && result.Content == e.base.Payload && has(e.base.Headers.Protected, box(gocose.HeaderLabelContentType)) && typeof(e.base.Headers.Protected[box(gocose.HeaderLabelContentType)]) == type(string) && result.ContentType == unbox(e.base.Headers.Protected[box(gocose.HeaderLabelContentType)], type(string))
+//@   ensures [err] err != nil ==> result == nil
+
+//@ stmt spec func CoseChainOf(certs []*x509.Certificate, raws []any) bool {
+//@     len(certs) == len(raws) && len(raws) > 0 && (forall k :: 0 <= k && k < len(raws) ==> typeof(raws[k]) == type([]byte) && x509.ParseCertificate(unbox(raws[k], type([]byte))).err == nil && certs[k] == x509.ParseCertificate(unbox(raws[k], type([]byte))).result0) }
+//@ spec func X5Chain(m *gocose.Sign1Message) []any { unbox(m.Headers.Unprotected[box(gocose.HeaderLabelX5Chain)], type([]any)) }
+
+//@ func (*envelope).signerInfo(e)
+//@   requires e != nil && e.base != nil
+//@   ensures [err] err != nil ==> result == nil
+//@   ensures [ok=>headers] err == nil ==> result != nil && fresh(result) && CoseSignedAttrsOf(result, e.base.Headers.Protected)
+//@   ensures [ok=>signature] err == nil ==> result.Signature == e.base.Signature && len(result.Signature) > 0
+//@   ensures [ok=>chain] err == nil ==> typeof(e.base.Headers.Unprotected[box(gocose.HeaderLabelX5Chain)]) == type([]any) && CoseChainOf(result.CertificateChain, X5Chain(e.base)) && nx509.ChainInput(result.CertificateChain)
+//@   loop 0
+//@     invariant len(certChain) == it && (it > 0 ==> fresh(certChain))
+//@     invariant forall k :: 0 <= k && k < it ==> typeof(certs[k]) == type([]byte) && x509.ParseCertificate(unbox(certs[k], type([]byte))).err == nil && certChain[k] == x509.ParseCertificate(unbox(certs[k], type([]byte))).result0
+//@     invariant forall k :: 0 <= k && k < it ==> certChain[k] != nil && nx509.IsParsed(certChain[k])
+
+// stmt C01/C07/C13 (COSE)
+//@ stmt spec func CoseContentOf(c *signature.EnvelopeContent, m *gocose.Sign1Message) bool {
+//@     c.Payload.Content == m.Payload && typeof(m.Headers.Protected[box(gocose.HeaderLabelContentType)]) == type(string) && c.Payload.ContentType == unbox(m.Headers.Protected[box(gocose.HeaderLabelContentType)], type(string)) &&
+//@     c.SignerInfo.Signature == m.Signature && len(c.SignerInfo.Signature) > 0 && CoseSignedAttrsOf(fieldptr(c, SignerInfo), m.Headers.Protected) &&
+//@     typeof(m.Headers.Unprotected[box(gocose.HeaderLabelX5Chain)]) == type([]any) && CoseChainOf(c.SignerInfo.CertificateChain, X5Chain(m)) }
+
+//@ func (*envelope).Content(e)
+//@   props C01 C07 C13
+//@   requires e != nil
+//@   ensures [none] e.base == nil ==> result == nil && typeof(err) == type(*signature.SignatureEnvelopeNotFoundError)
+//@   ensures [err] err != nil ==> result == nil
+//@   ensures [ok] err == nil ==> e.base != nil && result != nil && fresh(result) && CoseContentOf(result, e.base) && nx509.ChainInput(result.SignerInfo.CertificateChain)
+
+// stmt C01/C02 (COSE): the verifier is built from the leaf certificate's key and the algorithm that key dictates; no
+// external data; success only if the message verifies under it
+//@ func (*envelope).Verify(e)
+//@   props C01 C02
+//@   requires e != nil
+//@   ensures [none] e.base == nil ==> result == nil && typeof(err) == type(*signature.SignatureEnvelopeNotFoundError)
+//@   ensures [err] err != nil ==> result == nil
+//@   ensures [ok=>integrity] err == nil ==> e.base != nil && typeof(e.base.Headers.Unprotected[box(gocose.HeaderLabelX5Chain)]) == type([]any) && len(X5Chain(e.base)) > 0 && typeof(X5Chain(e.base)[0]) == type([]byte) && x509.ParseCertificate(unbox(X5Chain(e.base)[0], type([]byte))).err == nil && algorithm.SupportedKey(x509.ParseCertificate(unbox(X5Chain(e.base)[0], type([]byte))).result0.PublicKey) && (exists v gocose.Verifier :: VerifierFor(v, getSignatureAlgorithm$(x509.ParseCertificate(unbox(X5Chain(e.base)[0], type([]byte))).result0).result0, x509.ParseCertificate(unbox(X5Chain(e.base)[0], type([]byte))).result0.PublicKey) && CoseSigOK(e.base, v))
+//@   ensures [ok=>content] err == nil ==> result != nil && fresh(result) && CoseContentOf(result, e.base) && nx509.ChainInput(result.SignerInfo.CertificateChain)
+
+// ================= sign path
+
+//@ func encodeTime(t)
+//@   ensures [ok] err == nil ==> result == CBOREncTime(t)
+
+// stmt C16 (COSE attribute clauses) + C08 placement: keys are integer or text labels, pairwise distinct, never a system
+// label; the protected header carries the scheme, the (raw CBOR) signing time under the scheme's label, the expiry iff
+// non-zero, every attribute under its key with its value, and crit = scheme [+ authority time] [+ expiry] + exactly the
+// critical attribute keys
+//@ stmt spec func CoseAttrsPlaced(req *signature.SignRequest, p gocose.ProtectedHeader) bool {
+//@     (forall k :: 0 <= k && k < len(req.ExtendedSignedAttributes) ==> hashable(typeof(req.ExtendedSignedAttributes[k].Key)) && normalizedLabel$(req.ExtendedSignedAttributes[k].Key).result1 &&
+//@          !IsSystemLabel(normalizedLabel$(req.ExtendedSignedAttributes[k].Key).result0) && has(p, req.ExtendedSignedAttributes[k].Key) && p[req.ExtendedSignedAttributes[k].Key] == req.ExtendedSignedAttributes[k].Value) &&
+//@     (forall i, j :: 0 <= i && i < j && j < len(req.ExtendedSignedAttributes) ==> req.ExtendedSignedAttributes[i].Key != req.ExtendedSignedAttributes[j].Key) }
+//@ stmt spec func CritPlaced(req *signature.SignRequest, crit []any) bool {
+//@     len(crit) >= 1 && crit[0] == box("io.cncf.notary.signingScheme") &&
+//@     (req.SigningScheme == signature.SigningSchemeX509SigningAuthority ==> (exists j :: 0 <= j && j < len(crit) && crit[j] == box("io.cncf.notary.authenticSigningTime"))) &&
+//@     (!req.Expiry.IsZero() ==> (exists j :: 0 <= j && j < len(crit) && crit[j] == box("io.cncf.notary.expiry"))) &&
+//@     (forall k :: 0 <= k && k < len(req.ExtendedSignedAttributes) && req.ExtendedSignedAttributes[k].Critical ==> (exists j :: 0 <= j && j < len(crit) && crit[j] == req.ExtendedSignedAttributes[k].Key)) &&
+//@     (forall j :: 0 <= j && j < len(crit) ==> crit[j] == box("io.cncf.notary.signingScheme") || (req.SigningScheme == signature.SigningSchemeX509SigningAuthority && crit[j] == box("io.cncf.notary.authenticSigningTime")) || (!req.Expiry.IsZero() && crit[j] == box("io.cncf.notary.expiry")) ||
+//@          (exists k :: 0 <= k && k < len(req.ExtendedSignedAttributes) && req.ExtendedSignedAttributes[k].Critical && req.ExtendedSignedAttributes[k].Key == crit[j])) }
+//@ spec func RawTimeAt(p gocose.ProtectedHeader, k any, t time.Time) bool { has(p, k) && typeof(p[k]) == type(cbor.RawMessage) && unbox(p[k], type(cbor.RawMessage)) == CBOREncTime(t) }
+//@ func generateProtectedHeaders(req, protected)
+//@   requires req != nil && protected != nil
+//@   requires forall k any :: has(protected, k) ==> k == box(gocose.HeaderLabelAlgorithm)
+//@   modifies protected{}
+//@   ensures [ok=>scheme] result == nil ==> (req.SigningScheme == signature.SigningSchemeX509 || req.SigningScheme == signature.SigningSchemeX509SigningAuthority) && has(protected, box("io.cncf.notary.signingScheme")) && protected[box("io.cncf.notary.signingScheme")] == box(tostring(req.SigningScheme))
+//@   ensures [ok=>time] result == nil ==> RawTimeAt(protected, box(signingSchemeTimeLabelMap[req.SigningScheme]), req.SigningTime)
+//@   ensures [ok=>expiry] result == nil ==> (has(protected, box("io.cncf.notary.expiry")) <==> !req.Expiry.IsZero()) && (!req.Expiry.IsZero() ==> RawTimeAt(protected, box("io.cncf.notary.expiry"), req.Expiry))
+//@   ensures [ok=>attrs] result == nil ==> CoseAttrsPlaced(req, protected)
+//@   ensures [ok=>crit] result == nil ==> has(protected, box(gocose.HeaderLabelCritical)) && typeof(protected[box(gocose.HeaderLabelCritical)]) == type([]any) && CritPlaced(req, unbox(protected[box(gocose.HeaderLabelCritical)], type([]any)))
+//@   ensures [typed] result != nil ==> typeof(result) == type(*signature.InvalidSignRequestError)
+//@   ensures [alg-kept] result == nil ==> (has(protected, box(gocose.HeaderLabelAlgorithm)) <==> old(has(protected, box(gocose.HeaderLabelAlgorithm)))) && protected[box(gocose.HeaderLabelAlgorithm)] == old(protected[box(gocose.HeaderLabelAlgorithm)])
+//@   loop 0
+//@     invariant (has(protected, box(gocose.HeaderLabelAlgorithm)) <==> old(has(protected, box(gocose.HeaderLabelAlgorithm)))) && protected[box(gocose.HeaderLabelAlgorithm)] == old(protected[box(gocose.HeaderLabelAlgorithm)])
+//@     invariant fresh(crit) && len(crit) >= 1 && crit[0] == box("io.cncf.notary.signingScheme")
+//@     invariant (req.SigningScheme == signature.SigningSchemeX509SigningAuthority ==> (exists j :: 0 <= j && j < len(crit) && crit[j] == box("io.cncf.notary.authenticSigningTime"))) && (!req.Expiry.IsZero() ==> (exists j :: 0 <= j && j < len(crit) && crit[j] == box("io.cncf.notary.expiry")))
+//@     invariant forall k :: 0 <= k && k < it && req.ExtendedSignedAttributes[k].Critical ==> (exists j :: 0 <= j && j < len(crit) && crit[j] == req.ExtendedSignedAttributes[k].Key)
+//@     invariant forall j :: 0 <= j && j < len(crit) ==> crit[j] == box("io.cncf.notary.signingScheme") || (req.SigningScheme == signature.SigningSchemeX509SigningAuthority && crit[j] == box("io.cncf.notary.authenticSigningTime")) || (!req.Expiry.IsZero() && crit[j] == box("io.cncf.notary.expiry")) || (exists k :: 0 <= k && k < it && req.ExtendedSignedAttributes[k].Critical && req.ExtendedSignedAttributes[k].Key == crit[j])
+//@     invariant forall k :: 0 <= k && k < it ==> hashable(typeof(req.ExtendedSignedAttributes[k].Key)) && normalizedLabel$(req.ExtendedSignedAttributes[k].Key).result1 && !IsSystemLabel(normalizedLabel$(req.ExtendedSignedAttributes[k].Key).result0) && has(protected, req.ExtendedSignedAttributes[k].Key) && protected[req.ExtendedSignedAttributes[k].Key] == req.ExtendedSignedAttributes[k].Value
+//@     invariant forall i, j :: 0 <= i && i < j && j < it ==> req.ExtendedSignedAttributes[i].Key != req.ExtendedSignedAttributes[j].Key
+//@     invariant has(protected, box("io.cncf.notary.signingScheme")) && protected[box("io.cncf.notary.signingScheme")] == box(tostring(req.SigningScheme)) && RawTimeAt(protected, box(signingSchemeTimeLabelMap[req.SigningScheme]), req.SigningTime) && (has(protected, box("io.cncf.notary.expiry")) <==> !req.Expiry.IsZero()) && (!req.Expiry.IsZero() ==> RawTimeAt(protected, box("io.cncf.notary.expiry"), req.Expiry))
+//@     invariant forall s any :: has(protected, s) ==> IsSystemLabel(s) || (exists k :: 0 <= k && k < it && req.ExtendedSignedAttributes[k].Key == s)
+
+//@ interface func (signer).CertificateChain(s)
+//@   logged
+//@   ensures forall k :: 0 <= k && k < len(result) ==> result[k] != nil
+//@ interface func (signer).Algorithm(s)
+//@   pure
+
+//@ func generateUnprotectedHeaders(req, signer, unprotected)
+//@   requires req != nil && signer != nil && unprotected != nil
+//@   modifies unprotected{}
+//@   calls signer.CertificateChain
+//@   ensures [agent] req.SigningAgent != "" ==> has(unprotected, box("io.cncf.notary.signingAgent")) && unprotected[box("io.cncf.notary.signingAgent")] == box(req.SigningAgent)
+//@   ensures [no-agent] req.SigningAgent == "" ==> (has(unprotected, box("io.cncf.notary.signingAgent")) <==> old(has(unprotected, box("io.cncf.notary.signingAgent"))))
+//@   ensures [chain] has(unprotected, box(gocose.HeaderLabelX5Chain)) && typeof(unprotected[box(gocose.HeaderLabelX5Chain)]) == type([]any)
+//@   ensures [chain-receiver] called(signer.CertificateChain) && lastarg(signer.CertificateChain, 0) == signer
+//@   ensures [chain-in-order] called(signer.CertificateChain) && len(unbox(unprotected[box(gocose.HeaderLabelX5Chain)], type([]any))) == len(lastret(signer.CertificateChain, 0)) && (forall k :: 0 <= k && k < len(lastret(signer.CertificateChain, 0)) ==> unbox(unprotected[box(gocose.HeaderLabelX5Chain)], type([]any))[k] == box(lastret(signer.CertificateChain, 0)[k].Raw))
+//@   ensures [others-kept] forall k any :: k != box("io.cncf.notary.signingAgent") && k != box(gocose.HeaderLabelX5Chain) ==> (has(unprotected, k) <==> old(has(unprotected, k))) && (has(unprotected, k) ==> unprotected[k] == old(unprotected[k]))
+//@   loop 0
+//@     invariant len(certChain) == len(certs) && fresh(certChain)
+//@     invariant forall k :: 0 <= k && k < it ==> certChain[k] == box(certs[k].Raw)
+
+// stmt C08 (COSE): the payload go-cose asks to be signed is handed to the external signer unchanged, its signature is
+// returned unmodified
+//@ func (*remoteSigner).Sign(signer, rand, payload)
+//@   requires signer != nil && signer.base != nil
+//@   modifies signer.certs
+//@   calls Signer.Sign
+//@   ensures [pass-through] called(Signer.Sign) && lastarg(Signer.Sign, 0) == signer.base && lastarg(Signer.Sign, 1) == payload && ncalls(Signer.Sign) == old(ncalls(Signer.Sign)) + 1
+//@   ensures [ok] err == nil ==> result == lastret(Signer.Sign, 0) && signer.certs == lastret(Signer.Sign, 1)
+//@   ensures [err] err != nil ==> result == nil && signer.certs == old(signer.certs)
+//@ func (*remoteSigner).Algorithm(signer)
+//@   requires signer != nil
+//@   ensures [field] result == signer.alg
+//@ func (*remoteSigner).CertificateChain(signer)
+//@   requires signer != nil
+//@   ensures [field] result == signer.certs
+//@ func (*localSigner).CertificateChain(signer)
+//@   requires signer != nil
+//@   ensures [field] result == signer.certs
+//@ func newRemoteSigner(base)
+//@   requires base != nil
+//@   ensures [ok] err == nil ==> result != nil && fresh(result) && result.base == base && base.KeySpec().err == nil && result.alg == getSignatureAlgorithmFromKeySpec$(base.KeySpec().result0).result0 && IsCoseAlg(result.alg)
+//@   ensures [err] err != nil ==> result == nil
+//@ interface func (signature.LocalSigner).PrivateKey(s)
+//@   pure
+//@ interface func (signature.LocalSigner).CertificateChain(s)
+//@   ensures err == nil ==> (forall k :: 0 <= k && k < len(result) ==> result[k] != nil)
+//@ func newLocalSigner(base)
+//@   requires base != nil
+//@   ensures [ok] err == nil ==> result != nil && fresh(result)
+//@   ensures [ok-keyspec] err == nil ==> base.KeySpec().err == nil
+//@   ensures [err] err != nil ==> result == nil
+//@ func getSigner(signer)
+//@   requires signer != nil
+//@   ensures [ok] err == nil ==> result != nil && signer.KeySpec().err == nil
+
+//@ func NewEnvelope()
+//@   ensures [empty] result != nil && typeof(result) == type(*base.Envelope) && fresh(unbox(result, type(*base.Envelope))) && len(unbox(result, type(*base.Envelope)).Raw) == 0 && typeof(unbox(result, type(*base.Envelope)).Envelope) == type(*envelope) && unbox(unbox(result, type(*base.Envelope)).Envelope, type(*envelope)).base == nil
+//@ func ParseEnvelope(envelopeBytes)
+//@   ensures [err] err != nil ==> result == nil && typeof(err) == type(*signature.InvalidSignatureError)
+//@   ensures [ok] err == nil ==> typeof(result) == type(*base.Envelope) && fresh(unbox(result, type(*base.Envelope))) && unbox(result, type(*base.Envelope)).Raw == envelopeBytes && typeof(unbox(result, type(*base.Envelope)).Envelope) == type(*envelope) && unbox(unbox(result, type(*base.Envelope)).Envelope, type(*envelope)).base != nil && CoseDecodes(envelopeBytes, unbox(unbox(result, type(*base.Envelope)).Envelope, type(*envelope)).base)
+
+// stmt C16/C20/C08/C15 (COSE): Sign meets the interface contract of signature.Envelope; the message is replaced only
+// on success; the timestamp block runs only under notary.x509 with a timestamper, over this message's signature bytes
+// with the hash of the signing algorithm
+//@ func (*envelope).Sign(e, req)
+//@   props C08 C15 C16 C20
+//@   requires e != nil && req != nil && req.Signer != nil
+//@   modifies e.base
+//@   calls Signer.Sign, NewRequest, Timestamper.Timestamp, SignedToken.Verify, Validator.ValidateContext, Timestamp, signer.CertificateChain
+//@   ensures [err=>unchanged] err != nil ==> len(result) == 0 && e.base == old(e.base)
+//@   ensures [ok=>encoded] err == nil ==> len(result) > 0 && e.base != nil && fresh(e.base) && signature.Encodes(result, e.base)
+//@   ensures [ok=>placed] err == nil ==> e.base.Payload == req.Payload.Content && e.base.Headers.Protected[box(gocose.HeaderLabelContentType)] == box(req.Payload.ContentType)
+//@   ensures [ok=>scheme-times] err == nil ==> (req.SigningScheme == signature.SigningSchemeX509 || req.SigningScheme == signature.SigningSchemeX509SigningAuthority) && e.base.Headers.Protected[box("io.cncf.notary.signingScheme")] == box(tostring(req.SigningScheme)) && RawTimeAt(e.base.Headers.Protected, box(signingSchemeTimeLabelMap[req.SigningScheme]), req.SigningTime) && (has(e.base.Headers.Protected, box("io.cncf.notary.expiry")) <==> !req.Expiry.IsZero()) && (!req.Expiry.IsZero() ==> RawTimeAt(e.base.Headers.Protected, box("io.cncf.notary.expiry"), req.Expiry))
+//@   ensures [ok=>attributes] err == nil ==> CoseAttrsPlaced(req, e.base.Headers.Protected) && typeof(e.base.Headers.Protected[box(gocose.HeaderLabelCritical)]) == type([]any) && CritPlaced(req, unbox(e.base.Headers.Protected[box(gocose.HeaderLabelCritical)], type([]any)))
+//@   ensures [ok=>algorithm] err == nil ==> req.Signer.KeySpec().err == nil && has(e.base.Headers.Protected, box(gocose.HeaderLabelAlgorithm))
+//@   ensures [ok=>agent] err == nil && req.SigningAgent != "" ==> e.base.Headers.Unprotected[box("io.cncf.notary.signingAgent")] == box(req.SigningAgent)
+//@   ensures [ok=>no-agent] err == nil && req.SigningAgent == "" ==> !has(e.base.Headers.Unprotected, box("io.cncf.notary.signingAgent"))
+//@   ensures [no-timestamper=>not-contacted] (req.SigningScheme != signature.SigningSchemeX509 || req.Timestamper == nil) ==> ncalls(Timestamper.Timestamp) == old(ncalls(Timestamper.Timestamp)) && !called(timestamp.Timestamp)
+//@   ensures [timestamped=>token-embedded] (err == nil && req.SigningScheme == signature.SigningSchemeX509 && req.Timestamper != nil) ==> called(timestamp.Timestamp) && lastret(timestamp.Timestamp, 1) == nil && e.base.Headers.Unprotected[box("io.cncf.notary.timestampSignature")] == box(lastret(timestamp.Timestamp, 0)) && lastarg(timestamp.Timestamp, 0) == req && lastarg(timestamp.Timestamp, 1).Content == e.base.Signature && lastarg(timestamp.Timestamp, 1).HashAlgorithm != 0
+//@   ensures [timestamp-failure=>typed] (err != nil && called(timestamp.Timestamp) && lastret(timestamp.Timestamp, 1) != nil) ==> typeof(err) == type(*signature.TimestampError)
+//@   assert before call cose.generateUnprotectedHeaders#0: [attributes-valid] CoseAttrsPlaced(req, msg.Headers.Protected) && (req.SigningScheme == signature.SigningSchemeX509 || req.SigningScheme == signature.SigningSchemeX509SigningAuthority)
